@@ -436,4 +436,28 @@ def SumsOK (hm hs sums : Bytes) : Prop :=
 /-- what the theorems ask of a digest value: 32 bytes (`sha256.Size`) -/
 def DigestOK (d : Bytes) : Prop := d.length = 32 ∧ ∀ b ∈ d, b < 256
 
+/-- the member list with the data of member `i` replaced by `b'` -/
+def setData (ms : List Member) (i : Nat) (b' : Bytes) : List Member :=
+  match ms[i]? with
+  | none => ms
+  | some x => ms.set i { x with data := b' }
+
+/-- data sizes of an archive given as (name, data) pairs -/
+def sizesOf (ms : List (Bytes × Bytes)) : List Nat := ms.map (·.2.length)
+
+/-- member `i` with byte `k` of its data set to `val` -/
+def setByte (ms : List (Bytes × Bytes)) (i k val : Nat) : List (Bytes × Bytes) :=
+  match ms[i]? with
+  | none => ms
+  | some x => ms.set i (x.1, x.2.set k val)
+
+/-- consecutive regions from offset `a` to offset `b` -/
+def Contig : Nat → List Region → Nat → Prop
+  | a, [], b => a = b
+  | a, r :: rs, b => r.start = a ∧ Contig (a + r.len) rs b
+
+/-- SHA256SUMS is the last member and occurs only there (true of every archive `write` makes) -/
+def SumsLast (ms : List (Bytes × Bytes)) : Prop :=
+  ∃ pre x, ms = pre ++ [x] ∧ ∀ y ∈ pre, y.1 ≠ nSums
+
 end CV.Tar
